@@ -5,6 +5,8 @@ ALL = ["C%02d" % i for i in range(1, 21)]
 technique = "bounded symbolic execution of the real go/ssa of /repo (own engine gosym) with SMT (z3 5.1.0) deciding every assertion / panic / branch over all inputs within the stated bounds; counterexamples replayed natively against the real build"
 level_note = "trusted: go/packages+go/ssa faithful to the compiler; the gosym interpreter and its intrinsics (listed in the evidence); z3; per-property stubs listed in the evidence; bounds as stated in evidence.coverage.bounds"
 claimed = {
+ "C09": "environment: one name at every subset of the six levels with independent symbolic values from an ordered 3-element domain, direct and as a stage, through the real buildTask/buildPipeline, TaskRunner.Run, TaskCompiler, runStage, DefaultExecutor.Execute and mvdan's expand.ListEnviron/Get: the command sees the highest level's value, unrelated parent variables pass through, TASK_NAME is the task name; directories: every subset of stage/task/context dir for hooks and command",
+ "C10": "template variables: every subset of {configuration (as in cfg.Variables), --set, task, stage} through the real Before hook, rootAction, buildTaskRunner, runTask/runPipeline, TaskRunner.Run, compiler, runStage and Execute up to the template call; undefined variable => task fails and the command never reaches the interpreter; CLI arguments: every vector of up to 4 (thorough 5) words after the target over {--, t1, -x, a=b, w}: .Args/.ArgsList/$ARGS are exactly the words after the first --",
  "C06": "every task shape with up to 3 commands x 2 (thorough 3) variations x 2 before x 2 after x optional condition, run through the real TaskRunner.Run/before/after/execute/CompileTask with a symbolic outcome per executed command (success, any exit status 1..255, non-status error) and symbolic allow_failure: the sequence of executed commands and the skipped flag equal the reference semantics on every path",
  "C07": "task level: same runs as C06, asserting error <=> hard failure, errored flag and recorded exit status == the failing command's status for all 255 statuses at once (bit-vector conversion); CLI level: root action, `run`, `run task` on every argument vector of up to 3 (thorough 4) words over {task, task, pipeline, unknown, --} with symbolic target results, and main()'s abnormal exit <=> run() failed",
  "C19": "prefixed decorator (real bufio.ScanLines / bufio.Writer / lineWriter SSA): for every split of a stream into 2 writes of <=3 arbitrary bytes (no ESC) or 3 writes of <=2 bytes over {a,b,CR,LF} (thorough: 3x3, 2x4, 4x2): every sink write is one whole prefixed line, no LF inside, payload bytes == input bytes with CR/LF removed, in order; raw decorator forwards bytes unchanged call by call",
